@@ -33,6 +33,8 @@ class ClassLevelCache:
     # regardless of the similarity of their content, gets its own entry in these sets.
     done: Set[Module] = field(default_factory=set)
     pending: Set[Module] = field(default_factory=set)
+    # The subset of `done` added since the last elaboration run began
+    recent: Set[Module] = field(default_factory=set)
     # Modules whose elaboration by this pass (or of something beneath them) failed, and the exception it failed with
     failed: Dict[Module, Exception] = field(default_factory=dict)
 
@@ -159,6 +161,7 @@ class ElabPass:
         self.stack.pop()
         self.CLASS_LEVEL_CACHE.pending.remove(module)
         self.CLASS_LEVEL_CACHE.done.add(module)
+        self.CLASS_LEVEL_CACHE.recent.add(module)
         _verif.emit("exit", elabpass=self, module=module)
         return result
 
